@@ -302,6 +302,19 @@ void MEDDLY::pregen_relation::splitMxd(splittingOption split)
     } // for i
   }
 
+  // A difference can leave events[k] with a top level below k
+  // (everything that touched level k was subtracted).
+  // Move such a relation to the level it belongs to.
+  for (int k = int(K); k > 1; k--) {
+    if (0 == events[k].getNode()) continue;
+    const int lvl = ABS(events[k].getLevel());
+    if (lvl == k) continue;
+    if (lvl > 0) {
+      mxdUnion->computeTemp(events[k], events[lvl], events[lvl]);
+    }
+    events[k].set(0);
+  }
+
 #ifdef DEBUG_FINALIZE_SPLIT
   printf("After splitting events in finalize()\n");
   printf("events array: [");
